@@ -43,6 +43,13 @@ type frameData struct {
 	Defers      []deferred
 	ActiveLoops map[*ssa.BasicBlock]bool
 	Prev        *ssa.BasicBlock
+	// region merging: a jump to Stops[top].at ends the current mini-path
+	Stops []stopPoint
+}
+
+type stopPoint struct {
+	at *ssa.BasicBlock
+	k  func(st *State, from *ssa.BasicBlock)
 }
 
 type loopInfo struct {
@@ -138,6 +145,7 @@ func (e *Engine) loadHeap(st *State, obj *smt.Term, key string, t types.Type) Va
 		sv.Len = e.C.Select(e.heapArr(rs, key+".#len", smt.BV64), obj)
 		sv.Cap = e.C.Select(e.heapArr(rs, key+".#cap", smt.BV64), obj)
 		st.Assume(e.validSlice(sv))
+		e.preexisting(st, sv.Region)
 		return sv
 	case *types.Struct:
 		out := &StructV{T: t}
